@@ -62,10 +62,10 @@ def main():
     a = ap.parse_args()
     names = a.names or sorted(p.name for p in SEEDED.iterdir() if (p / "patch.diff").exists())
     have = claimed()
-    results = {}
     resfile = SEEDED / "RESULTS.json"
-    if resfile.exists():
-        results = json.loads(resfile.read_text())
+    results = {}
+    for q in sorted(SEEDED.glob("*/result.json")):      # one record per seed (safe for concurrent runs)
+        results[q.parent.name] = json.loads(q.read_text())
     for name in names:
         d = SEEDED / name
         meta = json.loads((d / "meta.json").read_text())
@@ -105,7 +105,18 @@ def main():
                 sys.stdout.flush()
         finally:
             shutil.rmtree(base, ignore_errors=True)
-        resfile.write_text(json.dumps(results, indent=1, sort_keys=True) + "\n")
+        prev = {}
+        if (d / "result.json").exists():
+            prev = json.loads((d / "result.json").read_text())
+        prev.setdefault("checks", {}).update(rec["checks"])
+        for kk in ("property", "verified"):
+            if kk in rec:
+                prev[kk] = rec[kk]
+        (d / "result.json").write_text(json.dumps(prev, indent=1, sort_keys=True) + "\n")
+        results[name] = prev
+    for q in sorted(SEEDED.glob("*/result.json")):
+        results[q.parent.name] = json.loads(q.read_text())
+    resfile.write_text(json.dumps(results, indent=1, sort_keys=True) + "\n")
 
 
 if __name__ == "__main__":
